@@ -50,6 +50,8 @@ pub struct Tr<'a> {
     pub pre: Vec<Bind>,
     /// variable -> the variable it mutably borrows (`let t = x.as_mut()`)
     pub alias: HashMap<String, String>,
+    /// target type of the next serde_bare::from_slice (from a let annotation or `.map(Self)`)
+    pub bare_hint: Option<RTy>,
 }
 
 const RESERVED: &[&str] = &[
@@ -84,7 +86,7 @@ pub fn tuple_pat(vars: &[String]) -> String {
 
 pub fn translate_fn(table: &Table, f: &FnInfo) -> R<String> {
     let world = table.world.contains(&f.key());
-    let mut tr = Tr { table, f, scopes: vec![HashMap::new()], fresh: 0, world, extras: vec![], loop_depth: 0, value_depth: 0, pre: vec![], alias: HashMap::new() };
+    let mut tr = Tr { table, f, scopes: vec![HashMap::new()], fresh: 0, world, extras: vec![], loop_depth: 0, value_depth: 0, pre: vec![], alias: HashMap::new(), bare_hint: None };
     let mut binders = String::new();
     for (n, t) in f.params() {
         let c = t.coq().ok_or_else(|| format!("parameter `{}` has a type outside the translated fragment", n))?;
@@ -392,7 +394,13 @@ impl<'a> Tr<'a> {
                 }
             }
         }
+        if let Some(a) = &ann {
+            if *a != RTy::Unknown && quote::quote!(#e).to_string().contains("serde_bare :: from_slice") {
+                self.bare_hint = Some(a.clone());
+            }
+        }
         let (v, ty) = self.expr(e)?;
+        self.bare_hint = None;
         let pre = self.take_pre();
         let ty = match ann {
             Some(t) if t != RTy::Unknown => t,
